@@ -1542,7 +1542,7 @@ func (c *ctx) symOps(fd *ast.FuncDecl, write bool) (ops []Op, why string) {
 				if !ok || len(targs) != 1 || scalarWidth(targs[0]) == 0 || len(args) != 2 || !strings.HasPrefix(c.ftype[f], "[]*") {
 					return nil, "object list write: " + src(e.node)
 				}
-				ops = append(ops, Op{K: "objs", CW: scalarWidth(targs[0]), Ty: id, TyN: c.pi.short + "." + et, E: en, F: f})
+				ops = append(ops, logCall(true, name, Op{K: "objs", CW: scalarWidth(targs[0]), Ty: id, TyN: c.pi.short + "." + et, E: en, F: f}))
 				continue
 			}
 			op, ok := c.primOp(true, name, targs, args[2:], c.ftype[f])
